@@ -540,13 +540,12 @@ func init() {
 }
 
 // c20MainWiring: in the function of package main that builds the proxy.HTTPProxy literal —
-//   mainFormatAliases  the names that stand for a format constant: `<format> == "name"` guarding
-//                      `<format> = logger.<Const>` (switch or if-chain), as "name=Const"
-//   mainLoggerFromNew  the literal's Logger field is the (only) result variable of logger.New(w, <format>), where
-//                      <format> is the variable the aliases assign to, initialised from the access format of the config
-//   mainProxyKeys      the fields the literal sets (UUID / Time absent: ServeHTTP falls back to uuid.NewUUID / time.Now)
-//   mainWriterTargets  the access-log targets and what the writer is for each ("" leaves it nil: logger.New
-//                      returns the no-op logger), as "target=writer"
+//
+//	mainFormatAliases  the names that stand for a format constant: `<format> == "name"` guarding
+//	                   `<format> = logger.<Const>` (switch or if-chain), as "name=Const"
+//	mainLoggerFromNew  the literal's Logger field is the (only) result variable of logger.New(w, <format>), where
+//	                   <format> is the variable the aliases assign to, initialised from the access format of the config
+//	mainProxyKeys      the fields the literal sets (UUID / Time absent: ServeHTTP falls back to uuid.NewUUID / time.Now)
 func c20MainWiring(x *X) {
 	var fn *ast.FuncDecl
 	var lit *ast.CompositeLit
@@ -583,7 +582,7 @@ func c20MainWiring(x *X) {
 
 	// the logger.New call and its result variable
 	var newCalls []*ast.CallExpr
-	resVar, fmtVar, wVar := "", "", ""
+	resVar, fmtVar := "", ""
 	ast.Inspect(fn.Body, func(n ast.Node) bool {
 		as, ok := n.(*ast.AssignStmt)
 		if !ok || len(as.Rhs) != 1 {
@@ -591,7 +590,7 @@ func c20MainWiring(x *X) {
 		}
 		if c, ok := as.Rhs[0].(*ast.CallExpr); ok && x.src(c.Fun) == "logger.New" && len(c.Args) == 2 && len(as.Lhs) >= 1 {
 			newCalls = append(newCalls, c)
-			resVar, wVar, fmtVar = x.src(as.Lhs[0]), x.src(c.Args[0]), x.src(c.Args[1])
+			resVar, fmtVar = x.src(as.Lhs[0]), x.src(c.Args[1])
 		}
 		return true
 	})
@@ -684,54 +683,6 @@ func c20MainWiring(x *X) {
 	sort.Strings(aliases)
 	x.defStrList("mainFormatAliases", aliases)
 	x.defBool("mainLoggerFromNew", fromNew && nonAlias == 0 && strings.HasSuffix(fmtInit, ".Log.AccessFormat"))
-
-	// the writer: which access-log target selects which writer
-	var targets []string
-	var tw func(n ast.Node, guard string)
-	tw = func(n ast.Node, guard string) {
-		switch v := n.(type) {
-		case nil:
-		case *ast.BlockStmt:
-			for _, st := range v.List {
-				tw(st, guard)
-			}
-		case *ast.IfStmt:
-			g := "?"
-			if be, ok := v.Cond.(*ast.BinaryExpr); ok && be.Op == token.EQL && strings.HasSuffix(x.src(be.X), ".Log.AccessTarget") {
-				if s, ok := lit2(be.Y); ok {
-					g = "=" + s
-				}
-			}
-			tw(v.Body, g)
-			if v.Else != nil {
-				tw(v.Else, "?")
-			}
-		case *ast.SwitchStmt:
-			for _, c := range v.Body.List {
-				cc := c.(*ast.CaseClause)
-				g := "?"
-				if v.Tag != nil && strings.HasSuffix(x.src(v.Tag), ".Log.AccessTarget") && len(cc.List) == 1 {
-					if s, ok := lit2(cc.List[0]); ok {
-						g = "=" + s
-					}
-				}
-				for _, st := range cc.Body {
-					tw(st, g)
-				}
-			}
-		case *ast.AssignStmt:
-			for i, l := range v.Lhs {
-				if x.src(l) == wVar && len(v.Lhs) == len(v.Rhs) {
-					targets = append(targets, strings.TrimPrefix(guard, "=")+"="+x.src(v.Rhs[i]))
-				}
-			}
-		}
-	}
-	if wVar != "" {
-		tw(fn.Body, "?")
-	}
-	sort.Strings(targets)
-	x.defStrList("mainWriterTargets", targets)
 }
 
 // ---- time / event data flow through the field functions and their helpers ----
